@@ -17,7 +17,7 @@ use crate::sched::{self, PointRec};
 pub fn meta() -> Meta {
     Meta {
         level: "model_checking",
-        rule: "stateless exploration of ALL schedules with at most 2 preemptions (thorough: 3 for the two-thread scripts) of 11 scripts with 2..3 application threads on a fresh real manager per execution (64 nodes, apply cache 16, 3 variables): S1 two threads compute the same conjunction; S2 recomputation vs. gc with the dead result still in the unique table and apply cache; S3 a different operator on shared operands vs. gc; S4 drop vs. gc vs. clone+or; S5 one thread running the multi-threaded ite/and with split depth 2 (fork/join through the hook spawns controlled threads); S6 gc vs. gc vs. xor; S8 add_vars (exclusive lock) vs. and; S9 two allocating threads on a 12-node manager; S10 ZBDD not (tautology chain) vs. gc; S11 quantification vs. gc vs. quantification; S12 compute-drop-recompute vs. gc; kinds bdd, bcdd, zbdd. Scheduling points: every level / store-state / manager-RwLock / terminal / cache-bucket lock acquisition (blocking ones with a readiness predicate, so deadlock = no enabled thread is detected), cache try-locks, gc try-lock and phases, handle clone/drop, fork/join. Oracle per execution: every result has the model's table and equals the handle obtained by recomputing sequentially in the same manager afterwards; no panic / deadlock; full audit with exact reference counts; after dropping everything + gc the initial node count. states = distinct (schedule outcome signatures), transitions = scheduling decisions taken, executions = schedules run.",
+        rule: "stateless exploration of ALL schedules with at most 2 preemptions (thorough: 3 for the two-thread scripts) of 11 scripts with 2..3 application threads on a fresh real manager per execution (64 nodes, apply cache 16, 3 variables): S1 two threads compute the same conjunction; S2 recomputation vs. gc with the dead result still in the unique table and apply cache; S3 a different operator on shared operands vs. gc; S4 drop vs. gc vs. clone+or; S5 one thread running the multi-threaded ite/and with split depth 2 (fork/join through the hook spawns controlled threads); S6 gc vs. gc vs. xor; S8 add_vars (exclusive lock) vs. and; S9 two allocating threads on a 12-node manager; S10 ZBDD not (tautology chain) vs. gc; S11 quantification vs. gc vs. quantification; S12 compute-drop-recompute vs. gc; kinds bdd, bcdd, zbdd; MTBDD<I64>: M1 add with a fresh constant, constant dropped, another fresh constant (terminal slot recycling) vs. gc; M2 two threads creating the same new terminal vs. gc. Scheduling points: every level / store-state / manager-RwLock / terminal / cache-bucket lock acquisition (blocking ones with a readiness predicate, so deadlock = no enabled thread is detected), cache try-locks, gc try-lock and phases, handle clone/drop, fork/join. Oracle per execution: every result has the model's table and equals the handle obtained by recomputing sequentially in the same manager afterwards; no panic / deadlock; full audit with exact reference counts; after dropping everything + gc the initial node count. states = distinct (schedule outcome signatures), transitions = scheduling decisions taken, executions = schedules run.",
         assumptions: vec![
             "only sequentially consistent interleavings at the instrumented points are explored; Relaxed/Acquire/Release reorderings of the atomics are not modelled".into(),
             "the background GC thread's condvar wake-up is not scheduled (node stores < 100 disable it); its effect, gc() under a shared manager lock at any point, is (S2-S4, S6, S10, S11)".into(),
@@ -45,6 +45,9 @@ pub fn shards(tier: &str) -> Vec<String> {
             v.push(format!("{k}:{s}:b{bound}"));
         }
     }
+    for s in ["m1", "m2"] {
+        v.push(format!("mtbdd:{s}:b{}", if tier == "thorough" { 3 } else { 2 }));
+    }
     v
 }
 
@@ -57,8 +60,167 @@ pub fn run(ctx: &mut Ctx) {
     match p[0] {
         "bdd" => explore_script::<Bdd>(ctx, &script, bound),
         "bcdd" => explore_script::<Bcdd>(ctx, &script, bound),
+        "mtbdd" => explore_mtbdd(ctx, &script, bound),
         _ => explore_script::<Zbdd>(ctx, &script, bound),
     }
+}
+
+// ---- MTBDD<I64>: terminals are created and collected dynamically -------------------
+
+fn execute_mtbdd(script: &str, prefix: &[usize]) -> Outcome {
+    use crate::hist::{HKind, HMtbdd};
+    use oxidd::mtbdd::terminal::I64;
+    use oxidd::mtbdd::MTBDDFunction;
+    use oxidd::PseudoBooleanFunction;
+    type MF = MTBDDFunction<I64>;
+    crate::proto::throttle_threads();
+    let mref = oxidd::mtbdd::new_manager::<I64>(64, 64, 16, 1);
+    mref.with_manager_exclusive(|m| {
+        m.add_vars(2);
+    });
+    // values chosen so that the constants 50 / 90 / 7 are not terminals of any result (they die with their handle)
+    let ft = vec![1i64, 2, 3, 4];
+    let f = HMtbdd::build(&mref, &ft).unwrap();
+    let results: Vec<Slot<AllocResult<MF>>> = (0..3).map(|_| Mutex::new(None)).collect();
+    let gcs: Vec<Slot<usize>> = (0..1).map(|_| Mutex::new(None)).collect();
+    let mut expected: Vec<Option<Vec<i64>>> = vec![None; 3];
+    let (r, gcr, fr, mr) = (&results, &gcs, &f, &mref);
+    let mut bodies: Vec<Box<dyn FnOnce() + Send + '_>> = vec![];
+    let plus = |k: i64| ft.iter().map(|x| x + k).collect::<Vec<_>>();
+    let times = |k: i64| ft.iter().map(|x| x * k).collect::<Vec<_>>();
+    match script {
+        "m1" => {
+            // f + fresh constant, constant dropped, another fresh constant (may recycle the terminal slot) vs. gc
+            bodies.push(Box::new(move || {
+                let c = mr.with_manager_shared(|m| MF::constant(m, I64::Num(50)));
+                let h = c.as_ref().ok().map(|c| fr.add(c));
+                drop(c);
+                let c2 = mr.with_manager_shared(|m| MF::constant(m, I64::Num(90)));
+                let h2 = c2.as_ref().ok().map(|c| fr.add(c));
+                drop(c2);
+                if let Some(h) = h {
+                    *r[0].lock().unwrap() = Some(h);
+                }
+                if let Some(h2) = h2 {
+                    *r[1].lock().unwrap() = Some(h2);
+                }
+            }));
+            bodies.push(Box::new(move || *gcr[0].lock().unwrap() = Some(mr.with_manager_shared(|m| m.gc()))));
+            expected[0] = Some(plus(50));
+            expected[1] = Some(plus(90));
+        }
+        "m2" => {
+            // two threads create the same new terminals
+            bodies.push(Box::new(move || {
+                let c = mr.with_manager_shared(|m| MF::constant(m, I64::Num(7)));
+                *r[0].lock().unwrap() = c.ok().map(|c| fr.mul(&c));
+            }));
+            bodies.push(Box::new(move || {
+                let c = mr.with_manager_shared(|m| MF::constant(m, I64::Num(7)));
+                *r[1].lock().unwrap() = c.ok().map(|c| fr.mul(&c));
+            }));
+            bodies.push(Box::new(move || *gcr[0].lock().unwrap() = Some(mr.with_manager_shared(|m| m.gc()))));
+            expected[0] = Some(times(7));
+            expected[1] = Some(times(7));
+        }
+        _ => panic!("unknown mtbdd script"),
+    }
+    let sc = script.to_string();
+    let pfx = prefix.to_vec();
+    let exec = sched::run_reporting_deadlock(prefix, bodies, |d, tr| {
+        let v = json!({"attrs": {"kind": "mtbdd", "script": sc, "class": "deadlock"},
+            "case": {"kind": "mtbdd", "script": sc, "schedule_prefix": pfx, "choices": sched::choices(tr)},
+            "msg": format!("mtbdd script {sc}: deadlock: {d}"), "group": 0, "shard": format!("mtbdd:{sc}"), "property": "C07", "tier": "quick"});
+        println!("V {v}");
+    });
+    let mut errors: Vec<(String, String)> = vec![];
+    for p in &exec.panics {
+        errors.push(("panic".into(), p.clone()));
+    }
+    if exec.overrun {
+        errors.push(("replay_divergence".into(), "the schedule prefix could not be replayed".into()));
+    }
+    let mut sig = String::new();
+    let mut live: Vec<MF> = vec![];
+    for (i, slot) in results.iter().enumerate() {
+        let Some(exp) = &expected[i] else { continue };
+        match slot.lock().unwrap().take() {
+            None => {
+                if exec.panics.is_empty() {
+                    errors.push(("no_result".into(), format!("result {i} was never produced")));
+                }
+            }
+            Some(Err(_)) => errors.push(("unexpected_oom".into(), format!("result {i}: OutOfMemory"))),
+            Some(Ok(h)) => {
+                match HMtbdd::table(&h) {
+                    Ok(t) if &t == exp => {}
+                    other => errors.push(("wrong_result".into(), format!("result {i} denotes {other:?}, expected {exp:?}"))),
+                }
+                live.push(h);
+            }
+        }
+    }
+    if let Some(c) = gcs[0].lock().unwrap().take() {
+        sig.push_str(&format!("gc={c};"));
+    }
+    {
+        let mut refs: Vec<&MF> = vec![&f];
+        refs.extend(live.iter());
+        let info = HMtbdd::audit(&mref, &refs, true);
+        for e in info.errors.iter().take(2) {
+            errors.push(("audit".into(), e.clone()));
+        }
+        sig.push_str(&format!("nodes={};terminals={};", info.inner_nodes, mref.with_manager_shared(|m| m.num_terminals())));
+    }
+    drop(live);
+    drop(f);
+    let (left, leftt) = mref.with_manager_shared(|m| {
+        m.gc();
+        (m.num_inner_nodes(), m.num_terminals())
+    });
+    if (left != 0 || leftt != 0) && errors.is_empty() {
+        errors.push(("leak".into(), format!("{left} inner nodes and {leftt} terminals remain after dropping everything and gc")));
+    }
+    Outcome { errors, signature: sig, trace: exec.trace }
+}
+
+fn explore_mtbdd(ctx: &mut Ctx, script: &str, bound: usize) {
+    let label = format!("mtbdd {script} preemption bound {bound}");
+    let script = script.to_string();
+    ctx.group(&label, |ctx| {
+        let cap = if ctx.thorough() { 400_000 } else { 60_000 };
+        let mut maxpre = 0usize;
+        let ctx_cell = std::cell::RefCell::new(ctx);
+        let (count, maxp, capped) = sched::explore(bound, cap, |prefix| {
+            let mut ctx = ctx_cell.borrow_mut();
+            let out = execute_mtbdd(&script, prefix);
+            ctx.count("evaluations", 1);
+            ctx.count("executions", 1);
+            ctx.count("transitions", out.trace.len() as u64);
+            let pre = sched::preemptions(&out.trace);
+            maxpre = maxpre.max(pre);
+            if pre > 0 {
+                ctx.count("nontrivial", 1);
+            }
+            ctx.outcome(&format!("mtbdd:{}:{}", script, out.signature));
+            ctx.distinct(crate::proto::fx(&out.signature.bytes().map(|b| b as u64).collect::<Vec<_>>()));
+            for (class, msg) in &out.errors {
+                ctx.viol(
+                    attrs(&[("kind", "mtbdd"), ("script", &script), ("class", class)]),
+                    json!({"kind": "mtbdd", "script": script, "preemption_bound": bound, "choices": sched::choices(&out.trace),
+                           "points": out.trace.iter().map(|p| json!([p.thread, p.class, p.enabled, p.chosen])).collect::<Vec<_>>()}),
+                    &format!("mtbdd script {script} under schedule {:?} ({} preemptions): {msg}", sched::choices(&out.trace), pre),
+                );
+            }
+            out.trace
+        });
+        let mut ctx = ctx_cell.borrow_mut();
+        ctx.outcome(&format!("schedules:mtbdd:{script}={count},max_points={maxp},max_preemptions={maxpre}{}", if capped { ",CAPPED" } else { "" }));
+        if capped {
+            println!("M schedule cap of {cap} reached for mtbdd {script} (bound {bound})");
+        }
+        ctx.sample(|| json!({"kind": "mtbdd", "script": script, "preemption_bound": bound, "schedules": count, "max_scheduling_points": maxp}));
+    });
 }
 
 trait QOps: BoolKind {
